@@ -231,7 +231,14 @@ Section PrintNormal.
         - cbn in H. injection H as _ <-. exists []. reflexivity.
         - cbn in H. destruct s as [|x s]; [discriminate|]. destruct (digit_val x); [|discriminate].
           destruct (IHn _ _ _ _ H) as [p Hp]. exists (x :: p). cbn. f_equal. exact Hp. }
-      destruct t as [| | |c0].
+      assert (Hgn : forall s v s', get_num s = Some (v, s') -> exists p, s = p ++ s').
+      { clear. intros s v s' H. destruct (get_num_prefix _ _ _ H) as [p [-> _]]. exists p. reflexivity. }
+      assert (Hds : forall s, exists p, s = p ++ drop_one_space s).
+      { clear. intros [|x s]; [exists []; reflexivity|]. rewrite drop_one_space_cons.
+        destruct (x =? 32); [exists [x]|exists []]; reflexivity. }
+      assert (Hlk : forall tab s v s', lookup_name tab 1 s = Some (v, s') -> exists p, s = p ++ s').
+      { clear. intros tab s v s' H. apply lookup_name_split in H. destruct H as [_ [p [-> _]]]. exists p. reflexivity. }
+      destruct t as [| | | | | | | |c0].
       + destruct (take_digits 4 s 0) as [[v s']|] eqn:E; [|discriminate].
         destruct (Htd _ _ _ _ E) as [p ->]. destruct (IH _ _ _ _ _ _ _ Hc Hsp H) as [s'' [post [-> Hpost]]].
         exists (p ++ s''), post. split; [rewrite <- app_assoc; reflexivity|exact Hpost].
@@ -240,8 +247,25 @@ Section PrintNormal.
         destruct (Htd _ _ _ _ E) as [p ->]. destruct (IH _ _ _ _ _ _ _ Hc Hsp H) as [s'' [post [-> Hpost]]].
         exists (p ++ s''), post. split; [rewrite <- app_assoc; reflexivity|exact Hpost].
       + destruct (take_digits 2 s 0) as [[v s']|] eqn:E; [|discriminate].
-        destruct (_ && _)%bool; [|discriminate].
         destruct (Htd _ _ _ _ E) as [p ->]. destruct (IH _ _ _ _ _ _ _ Hc Hsp H) as [s'' [post [-> Hpost]]].
+        exists (p ++ s''), post. split; [rewrite <- app_assoc; reflexivity|exact Hpost].
+      + destruct (get_num s) as [[v s']|] eqn:E; [|discriminate].
+        destruct (Hgn _ _ _ E) as [p ->]. destruct (IH _ _ _ _ _ _ _ Hc Hsp H) as [s'' [post [-> Hpost]]].
+        exists (p ++ s''), post. split; [rewrite <- app_assoc; reflexivity|exact Hpost].
+      + destruct (get_num (drop_one_space s)) as [[v s']|] eqn:E; [|discriminate].
+        destruct (Hds s) as [p0 E0]. destruct (Hgn _ _ _ E) as [p E1].
+        destruct (IH _ _ _ _ _ _ _ Hc Hsp H) as [s'' [post [-> Hpost]]].
+        exists (p0 ++ p ++ s''), post. split; [|exact Hpost].
+        rewrite E0, E1. rewrite <- !app_assoc. reflexivity.
+      + destruct (get_num s) as [[v s']|] eqn:E; [|discriminate].
+        destruct (_ && _)%bool; [|discriminate].
+        destruct (Hgn _ _ _ E) as [p ->]. destruct (IH _ _ _ _ _ _ _ Hc Hsp H) as [s'' [post [-> Hpost]]].
+        exists (p ++ s''), post. split; [rewrite <- app_assoc; reflexivity|exact Hpost].
+      + destruct (lookup_name short_months 1 s) as [[v s']|] eqn:E; [|discriminate].
+        destruct (Hlk _ _ _ _ E) as [p ->]. destruct (IH _ _ _ _ _ _ _ Hc Hsp H) as [s'' [post [-> Hpost]]].
+        exists (p ++ s''), post. split; [rewrite <- app_assoc; reflexivity|exact Hpost].
+      + destruct (lookup_name long_months 1 s) as [[v s']|] eqn:E; [|discriminate].
+        destruct (Hlk _ _ _ _ E) as [p ->]. destruct (IH _ _ _ _ _ _ _ Hc Hsp H) as [s'' [post [-> Hpost]]].
         exists (p ++ s''), post. split; [rewrite <- app_assoc; reflexivity|exact Hpost].
       + revert H. destruct (N.eqb_spec c0 32) as [->|Hc0]; intros H.
         * apply (parse_tokens_space_step (l ++ Lit c :: sp) s y0 m0 d0 r) in H.
@@ -253,9 +277,14 @@ Section PrintNormal.
           exists (c' :: s''), post. split; [reflexivity|exact Hpost].
   Qed.
 
-  Lemma readable_heading_layout toks h cv :
+  (** a layout under which a parsed header is a date has, up to the spaces at its end, tokens at its two
+      ends that the parser's trimming does not touch; it is a heading layout when in addition what it
+      writes is read back ([stable_layout]) *)
+  Lemma readable_heading_edges toks h cv :
     forallb safe_tok toks = true -> header_ok h -> parse_date toks h = Some cv ->
-    heading_layout (layout_core toks) = true.
+    forallb safe_tok (layout_core toks) = true
+    /\ match layout_core toks with t :: _ => edge_tok t | [] => false end = true
+    /\ match rev (layout_core toks) with t :: _ => edge_tok t | [] => false end = true.
   Proof.
     intros Hsafe [Hf Hl]. unfold parse_date.
     destruct (parse_tokens toks h 0 1 1) as [r|] eqn:E; [|discriminate]. intros _.
@@ -263,20 +292,20 @@ Section PrintNormal.
     pose proof (layout_core_last toks) as Hlast.
     set (core := layout_core toks) in *. clearbody core. subst toks.
     rewrite forallb_app in Hsafe. apply andb_true_iff in Hsafe. destruct Hsafe as [Hcs _].
-    unfold heading_layout. rewrite Hcs. cbn [andb].
+    split; [exact Hcs|].
     destruct (first_outside_inv _ _ Hf) as [h0 [h' [Eh Hh0]]].
     assert (Hne : core <> []).
     { intros ->. cbn [app] in E. apply (parse_tokens_only_spaces sp Hsp) in E. subst h.
       inversion E; subst. vm_compute in Hh0. discriminate. }
-    apply andb_true_iff. split.
-    - destruct core as [|t core']; [congruence|]. destruct t as [| | |c]; try reflexivity.
+    split.
+    - destruct core as [|t core']; [congruence|]. destruct t as [| | | | | | | |c]; try reflexivity.
       cbn [edge_tok]. subst h. cbn [app] in E. destruct (N.eqb_spec c 32) as [->|Hc].
       + rewrite parse_tokens_space_eq in E.
         destruct (N.eqb_spec h0 32) as [->|]; [vm_compute in Hh0; discriminate|discriminate].
       + rewrite parse_tokens_lit in E by exact Hc. destruct (N.eqb_spec c h0) as [->|]; [|discriminate].
         rewrite Hh0. reflexivity.
     - destruct (snoc_cases core) as [->|[l [t ->]]]; [congruence|].
-      rewrite rev_app_distr. cbn [rev app]. destruct t as [| | |c]; try reflexivity. cbn [edge_tok].
+      rewrite rev_app_distr. cbn [rev app]. destruct t as [| | | | | | | |c]; try reflexivity. cbn [edge_tok].
       pose proof (Hlast l c eq_refl) as Hc.
       rewrite <- app_assoc in E. cbn [app] in E.
       destruct (parse_tokens_last _ _ _ _ _ _ _ _ Hc Hsp E) as [s' [post [Es Hpost]]].
@@ -286,6 +315,14 @@ Section PrintNormal.
         inversion Hx; subst.
         replace (s' ++ c :: p ++ [32]) with ((s' ++ c :: p) ++ [32]) in Hl by (rewrite <- app_assoc; reflexivity).
         rewrite last_outside_snoc in Hl. vm_compute in Hl. discriminate.
+  Qed.
+
+  Lemma readable_heading_layout toks h cv :
+    forallb safe_tok toks = true -> stable_layout toks = true -> header_ok h -> parse_date toks h = Some cv ->
+    heading_layout (layout_core toks) = true.
+  Proof.
+    intros Hsafe Hst Hh Hp. destruct (readable_heading_edges toks h cv Hsafe Hh Hp) as [H1 [H2 H3]].
+    unfold heading_layout. rewrite H1, H2, H3, (stable_layout_core _ Hst). reflexivity.
   Qed.
 End PrintNormal.
 
